@@ -58,6 +58,13 @@ func init() {
 		ec.st.heap[id] = sv.With("charIndex", Ite(over, ci, Add(ci, n)))
 		return &TupleV{Vs: []Value{Ite(over, Str(""), Substr(s, ci, Add(ci, n))), Not(over)}}
 	}
+	stdModels[P+"Seek"] = func(ec *evalCtx, call *ast.CallExpr, recv Value, args []Value) Value {
+		id, sv := obj(ec, recv)
+		s, ci, i := scalar(sv.F["s"]), scalar(sv.F["charIndex"]), scalar(args[0])
+		bad := Or(Lt(i, Int(0)), Gt(i, StrLen(s)))
+		ec.st.heap[id] = sv.With("charIndex", Ite(bad, ci, i))
+		return Not(bad)
+	}
 	stdModels[P+"Position"] = func(ec *evalCtx, call *ast.CallExpr, recv Value, args []Value) Value {
 		_, sv := obj(ec, recv)
 		return posAt(ec, scalar(sv.F["s"]), scalar(sv.F["charIndex"]))
